@@ -507,6 +507,7 @@ def check(run):
     check_refused_write(run)
     check_interrupted_stop(run)
     check_restored_block_with_async_init(run)
+    check_restored_source_sends_event(run)
 
 
 def check_interrupted_stop(run):
@@ -623,6 +624,56 @@ def check_restored_block_with_async_init(run):
                       clause='restored_state_overwritten_by_async_init', concrete=True)
 
 
+def check_restored_source_sends_event(run):
+    """'restarting restores each block to that state and the corresponding output' - also when a
+    restored block (created first) announces its restored output to another persistent block that has
+    not been restored yet: the destination is restored first, then it handles the event."""
+    obs = dict(first=None, second=None, storage=None, error=None, harness=None)
+    store = {}
+
+    def one_run(phase):
+        async def main(loop):
+            edzed.reset_circuit()
+            circuit = edzed.get_circuit()
+            src = edzed.Input('src', initdef=0, persistent=True, on_output=edzed.Event('cnt', 'inc'))
+            cnt = edzed.Counter('cnt', initdef=10, persistent=True)
+            circuit.set_persistent_data(store)
+            task = asyncio.create_task(circuit.run_forever())
+            try:
+                await circuit.wait_init()
+            except Exception as err:                      # noqa
+                obs['error'] = repr(circuit.error or err)[:200]
+                return
+            if phase == 'first':
+                src.event('put', value=5)
+            obs[phase] = [src.output, cnt.output]
+            await circuit.shutdown()
+            await asyncio.wait([task], timeout=2.0)
+            obs['storage'] = {k: v for k, v in store.items() if k != 'edzed-stop-time'}
+        vloop.run_virtual(main, wall_limit_s=10.0)
+    try:
+        one_run('first')
+        one_run('second')
+    except BaseException as err:                          # noqa
+        obs['harness'] = repr(err)[:200]
+    finally:
+        edzed.reset_circuit()
+    run.add_case(dict(restored_source_sends_event=True), True)
+    run.count('restored_source_sends_event')
+    # first run: initdef 0 -> 'inc' (11), put 5 -> 'inc' (12); restart: cnt restored to 12, then the
+    # restored src (UNDEF -> 5) sends 'inc' -> 13
+    ok = (obs['harness'] is None and obs['error'] is None and obs['first'] == [5, 12] and obs['second'] == [5, 13]
+          and obs['storage'] == {"<Input 'src'>": 5, "<Counter 'cnt'>": 13})
+    run.add_obligation(ok)
+    if not ok:
+        run.violation('monitor', dict(case=dict(restored_source_sends_event=True), observed=obs),
+                      f"persistent Input 'src' (on_output -> 'inc' of the persistent Counter 'cnt' created after it): "
+                      f"first run [src, cnt] = {obs['first']} (expected [5, 12]); after the restart {obs['second']} "
+                      f"(expected [5, 13]: cnt restored to 12, then the event of the restored src), storage "
+                      f"{obs['storage']}, error {obs['error']}; harness: {obs['harness']}",
+                      clause='restored_source_sends_event', concrete=True)
+
+
 def check_refused_write(run, only=None):
     """A storage that refuses ONE write (a value it cannot serialise, a transient I/O error): the
     storage can then not hold the current state, but it must not go on holding an OUTDATED one - a
@@ -689,6 +740,8 @@ def replay(run, path):
         return common.directed_replay(run, path, lambda: check_interrupted_stop(run))
     if isinstance(case, dict) and 'restored_block_with_async_init' in case:
         return common.directed_replay(run, path, lambda: check_restored_block_with_async_init(run))
+    if isinstance(case, dict) and 'restored_source_sends_event' in case:
+        return common.directed_replay(run, path, lambda: check_restored_source_sends_event(run))
     if isinstance(case, dict) and 'refused_write' in case:
         return common.directed_replay(run, path, lambda: check_refused_write(run, case['refused_write']))
     return common.std_replay(run, C06(), path)
